@@ -35,3 +35,6 @@ func (v *VerifOperations) IsEmpty() bool { return v.ops.IsEmpty() }
 
 // SetFlag sets updateNegotiationNeededFlagOnEmptyChain.
 func (v *VerifOperations) SetFlag(b bool) { v.flag.Store(b) }
+
+// Flag reads updateNegotiationNeededFlagOnEmptyChain.
+func (v *VerifOperations) Flag() bool { return v.flag.Load() }
